@@ -284,3 +284,32 @@ Proof. intros Hb Hp. destruct (build_main_emission _ _ _ _ _ Hb) as [d [Hd [_ H]
   apply andb_prop in Hp. destruct Hp as [H1 H2]. apply H.
   - exact (nodupb_NoDup nref_eqb nref_eqb_spec _ H1).
   - refine (nodupb_NoDup Nat.eqb _ _ H2). intros a b0. apply Nat.eqb_spec. Qed.
+
+(* ---------- definition before use inside one graph ---------- *)
+Lemma filter_split {A} (P : A -> bool) : forall l L1 u L2, filter P l = L1 ++ u :: L2 ->
+  exists t1 t2, l = t1 ++ u :: t2 /\ filter P t1 = L1 /\ P u = true.
+Proof. induction l as [|x t IH]; intros L1 u L2 H; cbn in H; [destruct L1; discriminate|].
+  destruct (P x) eqn:Ex.
+  - destruct L1 as [|y L1]; cbn in H.
+    + inversion H; subst. exists [], t. cbn. auto.
+    + inversion H; subst. destruct (IH _ _ _ H2) as (t1 & t2 & E & F & Pu). exists (y :: t1), t2. cbn. rewrite Ex, F, E. auto.
+  - destruct (IH _ _ _ H) as (t1 & t2 & E & F & Pu). exists (x :: t1), t2. cbn. rewrite Ex, F, E. auto. Qed.
+
+(* In the GraphProto compiled for scope g, when own_of g is the sub-sequence of a dependency-closed order [topo] selected by the
+   ownership test [sel]: every dependency of an emitted node that belongs to the same scope (and is not an argument) is emitted
+   EARLIER in that graph. *)
+Theorem same_graph_dependencies_first p un args_of own_of fbuild fuel s g prefix vi ai ms ro s' rq fs topo sel :
+  compile p un args_of own_of fbuild fuel s g prefix vi = inl (MGraph ai ms ro, s', rq, fs) ->
+  closed nref (full_adj p) topo -> own_of g = filter sel topo ->
+  forall l1 n l2, ms = l1 ++ n :: l2 -> forall w, In w (deps p (src_of n)) -> sel w = true -> is_arg p w = false ->
+  In w (map src_of l1).
+Proof.
+  intros H Hcl Hown l1 n l2 Hms w Hw Hsel Harg.
+  pose proof (compile_top_srcs _ _ _ _ _ _ _ _ _ _ _ _ _ _ _ _ H) as Hsrc. rewrite Hown, Hms, map_app in Hsrc. cbn [map] in Hsrc.
+  assert (E : filter (fun u => negb (is_arg p u)) (filter sel topo) = filter (fun u => sel u && negb (is_arg p u)) topo).
+  { clear. induction topo as [|x t IH]; cbn; [reflexivity|]. destruct (sel x); cbn; [destruct (negb (is_arg p x)); cbn; now rewrite IH|exact IH]. }
+  rewrite E in Hsrc. symmetry in Hsrc. destruct (filter_split _ _ _ _ _ Hsrc) as (t1 & t2 & Et & Ef & _).
+  rewrite <- Ef. apply filter_In. split.
+  - apply (Hcl t1 (src_of n) t2 Et). unfold full_adj. apply in_or_app. now left.
+  - now rewrite Hsel, Harg.
+Qed.
